@@ -74,7 +74,8 @@ func runOcto(bin, home, dir string, args []string) cliResult {
 
 // ---- classification of a crash by the panic message and the first frames inside the repository ----
 
-var frameRe = regexp.MustCompile(`(?m)^\s+\S*/(cube2222/octosql|wt-[^/]+|repo)/((?:[a-z_]+/)*[a-z_0-9]+\.go):(\d+)`)
+// frames of the tree under check in a goroutine trace: "\t<VERIF_REPO>/<dir>/<file>.go:<line>"
+var frameRe = regexp.MustCompile(`(?m)^\s+` + regexp.QuoteMeta(filepath.Clean(repoDir())) + `/((?:[a-z_0-9]+/)*[a-z_0-9]+\.go):(\d+)`)
 
 type crash struct {
 	msg   string
@@ -108,10 +109,10 @@ func parseCrash(stderr string) crash {
 		}
 	}
 	for _, m := range frameRe.FindAllStringSubmatch(stderr, -1) {
-		c.files = append(c.files, m[2])
-		if m[2] == "functions/functions.go" && c.fn == "" {
+		c.files = append(c.files, m[1])
+		if m[1] == "functions/functions.go" && c.fn == "" {
 			var line int
-			fmt.Sscan(m[3], &line)
+			fmt.Sscan(m[2], &line)
 			c.fn = functionAt(line)
 		}
 	}
@@ -152,6 +153,9 @@ func classify(c crash) string {
 		return "c25-csv-nonscalar"
 	case strings.Contains(m, "nil pointer") && c.has("table_valued_functions/poll.go"):
 		return "c21-poll-nil"
+	case strings.Contains(m, "slice bounds out of range [1:0]") && len(c.files) > 0 &&
+		(c.files[0] == "execution/nodes/stream_join.go" || c.files[0] == "execution/nodes/outer_join.go"):
+		return "c18-join-retraction-unmatched"
 	case strings.Contains(m, "nil pointer") && c.limitExprCrash():
 		return "c07-limit-column"
 	case c.has("execution/expressions.go") && (strings.Contains(m, "index out of range") || strings.Contains(m, "nil pointer") || strings.Contains(m, "unreachable")):
@@ -244,6 +248,15 @@ func writeInputs(dir string, r *lib.Rng) error {
 		}
 	}
 	os.WriteFile(filepath.Join(dir, "k2.json"), []byte(b.String()), 0o644)
+	// ev.csv: keyed events whose event times are out of order within a few seconds; kk.csv: a small dimension table
+	b.Reset()
+	b.WriteString("k,v,t\n")
+	for k := 0; k < 90; k++ {
+		sec := (k*2 + []int{0, -5, 4, -2, 7, 0, 0, -9}[k%8] + 60) % 60
+		b.WriteString(fmt.Sprintf("%d,%d,2020-01-01T00:%02d:%02dZ\n", k%3, k%7, k/30, sec))
+	}
+	os.WriteFile(filepath.Join(dir, "ev.csv"), []byte(b.String()), 0o644)
+	os.WriteFile(filepath.Join(dir, "kk.csv"), []byte("k,w\n0,a\n1,b\n2,c\n1,d\n"), 0o644)
 	os.WriteFile(filepath.Join(dir, "l.lines"), []byte("first\n\nthird line\n日本\n"+strings.Repeat("y", 300)+"\nlast"), 0o644)
 	// fixtures of the scenario corpus
 	fix := filepath.Join(dir, "fixtures")
@@ -478,9 +491,53 @@ func (g gen) tvf() string {
 	return "SELECT * FROM range(" + g.pick("start=>1", "end=>2", "start=>'a', end=>3", "start=>DESCRIPTOR(a), end=>1", "start=>1, end=>2, step=>0", "start=>1.5, end=>2") + ") r"
 }
 
+// retracting: a subquery (alias q, columns k and c) whose output stream carries retractions, with or without event times
+func (g gen) retracting() string {
+	src := g.pick("ev.csv m", "max_diff_watermark(source=>TABLE(ev.csv), max_diff=>INTERVAL "+g.pick("0", "3", "10", "100")+" SECONDS, time_field=>DESCRIPTOR(t)) m")
+	trig := g.pick(" TRIGGER COUNTING 1", " TRIGGER COUNTING 2", " TRIGGER COUNTING 3", " TRIGGER ON WATERMARK, COUNTING 1", "")
+	var inner string
+	switch g.r.Intn(4) {
+	case 0:
+		inner = "SELECT m.v AS k, COUNT(*) AS c FROM " + src + " GROUP BY m.v"
+	case 1:
+		inner = "SELECT m.t AS t, m.k AS k, COUNT(*) AS c FROM " + src + " GROUP BY m.t, m.k"
+	default:
+		inner = "SELECT m.k AS k, " + g.pick("COUNT(*)", "SUM(m.v)", "MAX(m.v)") + " AS c FROM " + src + " GROUP BY m.k"
+	}
+	inner += trig
+	switch g.r.Intn(4) {
+	case 0:
+		return "(SELECT DISTINCT g.k AS k, g.c AS c FROM (" + inner + ") g)"
+	case 1:
+		return "(SELECT g.k AS k, j.k AS c FROM (" + inner + ") g " + g.pick("LEFT JOIN", "OUTER JOIN", "RIGHT JOIN") + " kk.csv j ON g.c = j.k)"
+	}
+	return "(" + inner + ")"
+}
+
+// retractingJoin: joins whose inputs retract (trigger group-bys, DISTINCT over them, outer joins), keyed on values that
+// change with every trigger firing
+func (g gen) retractingJoin() string {
+	a := g.retracting() + " a"
+	b := g.pick("kk.csv b", g.retracting()+" b", g.retracting()+" b")
+	on := g.pick("a.k = b.k", "a.c = b.k", "a.k = b.k AND a.c = b.c", "a.c = b.c")
+	if strings.HasPrefix(b, "kk.csv") {
+		on = g.pick("a.k = b.k", "a.c = b.k")
+	}
+	return "SELECT " + g.pick("*", "a.k, a.c", "a.k, b.k") + " FROM " + a + " " + g.pick("JOIN", "JOIN", "LEFT JOIN", "OUTER JOIN", "RIGHT JOIN") + " " + b + " ON " + on + g.pick("", "", " LIMIT 5")
+}
+
 func (g gen) query() string {
 	if g.r.Chance(1, 8) {
 		return g.tvf()
+	}
+	if g.r.Chance(1, 8) {
+		return g.retractingJoin()
+	}
+	if g.r.Chance(1, 25) {
+		tup := func() string {
+			return g.pick("(1, 2)", "(1, 2, 3)", "(1, 'a')", "(NULL, 2)", "((1, 2), 3)", "(e.i, e.s)", "(e.i, e.s, e.f)")
+		}
+		return "SELECT COALESCE(" + tup() + ", " + tup() + g.pick("", ", "+tup()) + ") FROM " + g.pick("e.csv e", "small.csv e") + g.pick("", " LIMIT 2")
 	}
 	from, t := g.table()
 	col := func() string {
@@ -794,7 +851,7 @@ func cliSearch(cf *lib.CaseFile, rng *lib.Rng, f lib.Flags) {
 			class := classify(cr)
 			// the replay carries the input files the query names (they do not depend on the seed)
 			files := map[string]string{}
-			for _, name := range []string{"e.csv", "j.json", "k.json", "k2.json", "small.csv", "empty.csv", "empty.json", "l.lines"} {
+			for _, name := range []string{"e.csv", "j.json", "k.json", "k2.json", "ev.csv", "kk.csv", "small.csv", "empty.csv", "empty.json", "l.lines"} {
 				if strings.Contains(c.query, name) {
 					if content, err := os.ReadFile(filepath.Join(data, name)); err == nil {
 						if len(content) > 6000 {
